@@ -145,9 +145,65 @@ def impl_inplace(case):
     return [o1, o2]
 
 
+def impl_alive(case):
+    """two more replacements, made while the typed objects of the first assembly are alive and have been used:
+    (i) the replaced module's own plasmid read from another origin, in a new record and a new typed object — a valid
+    module with the same overhangs, so the product must be the very same; (ii) the replacement carrying features with
+    fuzzy positions (<, >, within, between, one-of), as curated GenBank files do"""
+    from harness import implutil
+    from Bio.SeqFeature import (SeqFeature, FeatureLocation, BeforePosition, AfterPosition, WithinPosition,
+                                BetweenPosition, OneOfPosition, ExactPosition)
+    try:
+        vector = implutil.mk_entity(case["vector"], "vector")
+        mods = [implutil.mk_entity(m, "mod%d" % i) for i, m in enumerate(case["modules1"])]
+    except Exception:  # noqa
+        return None
+    j = [i for i, (a, b) in enumerate(zip(case["modules1"], case["modules2"])) if a["seq"] != b["seq"]]
+    if len(j) != 1:
+        return None
+    j = j[0]
+    o1, _ = implutil.observe_assembly(vector, mods)
+    seq = case["modules1"][j]["seq"]
+    k = max(1, len(seq) // 3)
+    rot = implutil.get_class(case["modules1"][j]["cls"])(implutil.mk_circular(seq[-k:] + seq[:-k], "again"))
+    mi = list(mods)
+    mi[j] = rot
+    try:
+        oi, _ = implutil.observe_assembly(vector, mi)
+    except Exception as e:  # noqa
+        oi = {"out": "raised", "exc": type(e).__name__}
+    rec = implutil.mk_circular(case["modules2"][j]["seq"], "fuzzy")
+    n = len(rec.seq)
+    if n >= 8:
+        rec.features += [
+            SeqFeature(FeatureLocation(BeforePosition(1), AfterPosition(n - 1), 1), type="gene", qualifiers={"label": ["fz1"]}),
+            SeqFeature(FeatureLocation(WithinPosition(n - 4, n - 4, n - 3), ExactPosition(n - 1), -1), type="CDS", qualifiers={"label": ["fz2"]}),
+            SeqFeature(FeatureLocation(ExactPosition(n // 2), BetweenPosition(n // 2 + 2, n // 2 + 2, n // 2 + 3), 1), type="misc_feature", qualifiers={"label": ["fz3"]}),
+            SeqFeature(FeatureLocation(OneOfPosition(n - 3, [ExactPosition(n - 3), ExactPosition(n - 2)]), ExactPosition(n), 1), type="misc_feature", qualifiers={"label": ["fz4"]}),
+        ]
+    mii = list(mods)
+    try:
+        mii[j] = implutil.get_class(case["modules2"][j]["cls"])(rec)
+        oii, _ = implutil.observe_assembly(vector, mii)
+    except Exception as e:  # noqa
+        oii = {"out": "raised", "exc": type(e).__name__}
+    return [o1, oi, oii]
+
+
 def oracle_pair(case):
     o1, o2 = impl_pair(case)
     t = case["truth"]
+    al = impl_alive(case)
+    if al is not None and o1["out"] == "product":
+        key = lambda o: (o["out"], (o.get("seq") or "").upper(), o.get("unused"))
+        if key(al[1]) != key(o1):
+            return {"signature": "C19:same-plasmid-from-another-origin",
+                    "what": "replacing module %d by its own plasmid read from another origin (new record, new typed object, "
+                            "the first ones alive) gives %s %s, the original product is %s" % (case["pos"], al[1]["out"], al[1].get("seq"), o1.get("seq"))}
+        if key(al[2]) != key(o2):
+            return {"signature": "C19:replacement-with-fuzzy-features",
+                    "what": "the replacement carrying features with fuzzy positions gives %s %s %s, without them %s %s"
+                            % (al[2]["out"], al[2].get("exc"), al[2].get("seq"), o2["out"], o2.get("seq"))}
     ip = impl_inplace(case)
     if ip is not None:
         for a, b, what in ((o1, ip[0], "original"), (o2, ip[1], "replacement")):
